@@ -32,6 +32,17 @@ ASSUMPTIONS = ["link = vlan.Node frames; B/IP (BVLL) link garbage is exercised b
                "fragments are checked for residue only"]
 
 
+def GENERATED(ctx):
+    """tables the model reads from the tree under test: the schema environment + service registries
+    (translator/c03.py), the state-machine defaults (translator/tsm.py), the reject-reason table
+    (translator/c10.py)"""
+    from . import c03
+    c03.GENERATED(ctx)
+    from translator import tsm, c10 as tr10
+    tsm.generate()
+    tr10.generate()
+
+
 def is_dcc(fr):
     kind, _inv = C.classify(fr)
     if kind != "confirmed":
@@ -141,12 +152,24 @@ def shard(ctx, spec):
             fresh()
         return out
 
+    for frames, label, pos, check_valid_at in batches(ctx, rng, stream, names, T):
+        one(frames, label, pos, check_valid_at=check_valid_at)
+    if stream == "mutate":
+        for name in names:
+            ctx.sample({"stream": stream, "template": name, "frame": T[name].hex()})
+    elif stream == "random":
+        ctx.sample({"stream": stream, "example": frames[0].hex()})
+
+
+def batches(ctx, rng, stream, names, T):
+    """the injected batches of one shard: (frames, label, position, index of the valid request or None).
+    Shared with the model side (harness/c10_model.py) so that both see the SAME frames."""
+    base_rp = T["rp"]
     if stream == "mutate":
         for name in names:
             f = T[name]
             for kind, pos, m in mutations(ctx, rng, name, f):
-                one([m], "%s/%s" % (name, kind), pos)
-            ctx.sample({"stream": stream, "template": name, "frame": f.hex()})
+                yield [m], "%s/%s" % (name, kind), pos, None
     elif stream == "random":
         n = 1500 if ctx.quick else 30000
         for i in range(n):
@@ -160,8 +183,7 @@ def shard(ctx, spec):
             else:
                 t = rng.choice([0x00, 0x02, 0x08, 0x0A, 0x0E, 0x10, 0x20, 0x30, 0x38, 0x3C, 0x40, 0x41, 0x42, 0x50, 0x60, 0x70, 0x71, 0x80, 0xF0])
                 fr = b"\x01\x04" + bytes([t]) + body
-            one([fr], "random/L%d" % layer, None)
-        ctx.sample({"stream": stream, "example": fr.hex()})
+            yield [fr], "random/L%d" % layer, None, None
     elif stream == "interleave":
         for name in names:
             f = T[name]
@@ -171,8 +193,8 @@ def shard(ctx, spec):
                 kk, inv = C.classify(m)
                 if kk != "other" and inv == 1:
                     continue      # would collide with the valid request's invoke id
-                one([m, base_rp], "%s/%s+valid" % (name, kind), pos, check_valid_at=1)
-                one([base_rp, m], "valid+%s/%s" % (name, kind), pos, check_valid_at=0)
+                yield [m, base_rp], "%s/%s+valid" % (name, kind), pos, 1
+                yield [base_rp, m], "valid+%s/%s" % (name, kind), pos, 0
 
 
 def specs(ctx):
@@ -234,3 +256,9 @@ def replay(ctx, payload):
         for k, w in C.judge(fr, out, dev.residue()):
             ctx.fail(k, case, w)
     ctx.count("replay", "replay")
+    if getattr(ctx, "model_ok", False):
+        try:
+            from . import c10_model
+        except ImportError:
+            return
+        c10_model.replay_frames(ctx, frames)
